@@ -259,6 +259,36 @@ def run_case(case):
         if sum(runs.values()) > len(distinct):
             fail("a distinct batch element's body ran the wrong number of times",
                  "%s: %d body executions for %d distinct elements" % (label, sum(runs.values()), len(distinct)))
+        # ---- batches through ignore_result() over elements that are all memoized beforehand, some of them as failures:
+        # the failures still appear in their slots / the first one is raised, as the individual calls do
+        ip = "I%d_%d" % (case["seed"], case["idx"])
+        ikeys = list(range(4))
+        ifail = {rng.randrange(4)}
+        for k in ikeys:
+            ffuncs.TABLE["%s|%s" % (ip, k)] = ("__raise__", ValueError, ("elem %d failed" % k,)) if k in ifail else k + 50
+        for raise_first in (False, True):
+            env.set_env(sc.path("envI%d" % raise_first), default_storage=env.fs_backend(sc.path("I%d" % raise_first)))
+            for k in ikeys:
+                outcome_of(lambda k=k: ffuncs.pair(ip, k))
+            indiv = [outcome_of(lambda k=k: ffuncs.pair.ignore_result()(ip, k)) for k in ikeys]
+            got = outcome_of(lambda: ffuncs.pair.ignore_result().call_batch([{"prefix": ip, "k": k} for k in ikeys],
+                                                                        raise_first_exception=raise_first))
+            out["obs"]["ignore_result_batches_over_memoized_elements"] += 1
+            label = "ignore_result batch over memoized elements %s (failing %s), raise_first=%s" % (ikeys, sorted(ifail), raise_first)
+            first_fail = next((o for o in indiv if o[0] == "raise"), None)
+            if raise_first:
+                if got[0] != "raise" or not same_outcome(got, first_fail):
+                    fail("with raise_first_exception the exception raised is not the first failing slot's",
+                         "%s: got %s expected %s" % (label, domain.describe(got, 120), domain.describe(first_fail, 120)))
+            elif got[0] == "raise":
+                fail("batch evaluation raises " + type(got[1]).__name__, "%s: %r" % (label, got[1]))
+            else:
+                for i, (r, o) in enumerate(zip(got[1], indiv)):
+                    out["obs"]["slots_compared"] += 1
+                    slot = ("raise", r) if isinstance(r, Exception) else ("ret", r)
+                    if not same_outcome(slot, o):
+                        fail("a batch slot differs from the individual call",
+                             "%s: slot %d: batch %s, individual %s" % (label, i, domain.describe(slot, 80), domain.describe(o, 80)))
         # ---- a long batch (several hundred elements) with failing elements near its beginning and in its middle, the first
         # failure raised: every element is evaluated and memoized all the same, as the individual calls do
         if case["idx"] % 4 == 0:
